@@ -91,9 +91,6 @@ func ReqQueryRename(req *bfe_basic.Request, oldName string, newName string) {
 	var values []string
 	var ok bool
 
-	// add prefix "&" to simplify process
-	rawQuery := "&" + req.HttpRequest.URL.RawQuery
-
 	// parse the query
 	queries := queryParse(req)
 
@@ -107,57 +104,62 @@ func ReqQueryRename(req *bfe_basic.Request, oldName string, newName string) {
 	queries[newName] = values
 
 	// rename keys
-	srcKey := "&" + oldName + "="
-	dstKey := "&" + newName + "="
-	rawQuery = strings.Replace(rawQuery, srcKey, dstKey, -1)
+	req.HttpRequest.URL.RawQuery = rawQueryEdit(req.HttpRequest.URL.RawQuery, func(key string) (bool, string) {
+		if key == oldName {
+			return true, newName
+		}
+		return true, ""
+	})
+}
 
-	// remove prefix "&"
-	req.HttpRequest.URL.RawQuery = rawQuery[1:]
+// rawQueryEdit walks over the "&" separated segments of a raw query. For each segment, edit is
+// called with the unescaped key; it returns whether to keep the segment and, if not empty, a new
+// key for it. Segments whose key cannot be unescaped are kept untouched.
+func rawQueryEdit(rawQuery string, edit func(key string) (bool, string)) string {
+	segs := strings.Split(rawQuery, "&")
+	kept := make([]string, 0, len(segs))
+	for _, seg := range segs {
+		rawKey, rest := seg, ""
+		if i := strings.Index(seg, "="); i >= 0 {
+			rawKey, rest = seg[:i], seg[i:]
+		}
+		key, err := url.QueryUnescape(rawKey)
+		if err != nil || len(seg) == 0 {
+			kept = append(kept, seg)
+			continue
+		}
+		keep, newKey := edit(key)
+		if !keep {
+			continue
+		}
+		if newKey != "" {
+			seg = url.QueryEscape(newKey) + rest
+		}
+		kept = append(kept, seg)
+	}
+	return strings.Join(kept, "&")
 }
 
 // ReqQueryDel deletes some keys from query
 func ReqQueryDel(req *bfe_basic.Request, keys []string) {
-	// add "&" prefix and suffix to simplify process
-	rawQuery := "&" + req.HttpRequest.URL.RawQuery + "&"
-
 	// parse the query
 	queries := queryParse(req)
 
 	// delete some keys from queries
+	keysMap := make(map[string]bool)
 	for _, key := range keys {
 		queries.Del(key)
-
-		for {
-			// find key start &key=
-			start := strings.Index(rawQuery, "&"+key+"=")
-			if start == -1 {
-				break
-			}
-
-			// find value end
-			end := strings.Index(rawQuery[start+1:], "&")
-			if end == -1 {
-				break
-			}
-
-			// remove start:start+end part
-			rawQuery = rawQuery[:start] + rawQuery[start+end+1:]
-		}
+		keysMap[key] = true
 	}
 
-	// set rawQuery, remove "&" prefix and suffix
-	if len(rawQuery) == 1 {
-		req.HttpRequest.URL.RawQuery = ""
-	} else {
-		req.HttpRequest.URL.RawQuery = rawQuery[1 : len(rawQuery)-1]
-	}
+	// delete the same keys from rawQuery
+	req.HttpRequest.URL.RawQuery = rawQueryEdit(req.HttpRequest.URL.RawQuery, func(key string) (bool, string) {
+		return !keysMap[key], ""
+	})
 }
 
 // ReqQueryDelAllExcept deletes all keys from query, except some keys
 func ReqQueryDelAllExcept(req *bfe_basic.Request, keys []string) {
-	// add "&" prefix and suffix to simplify process
-	rawQuery := "&" + req.HttpRequest.URL.RawQuery + "&"
-
 	// parse the query
 	queries := queryParse(req)
 
@@ -169,33 +171,13 @@ func ReqQueryDelAllExcept(req *bfe_basic.Request, keys []string) {
 
 	// delete some keys from queries, except keys in keysMap
 	for key := range queries {
-		if _, ok := keysMap[key]; ok {
-			continue
-		}
-
-		queries.Del(key)
-		for {
-			// find key start
-			start := strings.Index(rawQuery, "&"+key+"=")
-			if start == -1 {
-				break
-			}
-
-			// find value end
-			end := strings.Index(rawQuery[start+1:], "&")
-			if end == -1 {
-				break
-			}
-
-			// remove start:start+end part
-			rawQuery = rawQuery[:start] + rawQuery[start+end+1:]
+		if _, ok := keysMap[key]; !ok {
+			queries.Del(key)
 		}
 	}
 
-	// set rawQuery, remove "&" prefix and suffix
-	if len(rawQuery) == 1 {
-		req.HttpRequest.URL.RawQuery = ""
-	} else {
-		req.HttpRequest.URL.RawQuery = rawQuery[1 : len(rawQuery)-1]
-	}
+	// delete the same keys from rawQuery
+	req.HttpRequest.URL.RawQuery = rawQueryEdit(req.HttpRequest.URL.RawQuery, func(key string) (bool, string) {
+		return keysMap[key], ""
+	})
 }
